@@ -405,6 +405,24 @@ impl<'t, 'c> Gen<'t, 'c> {
 
     /// Condition (INTEGER-typed truth value).
     pub fn cond(&mut self, depth: usize) -> Expr {
+        if self.t.chance(1, 8) {
+            // a bare number as truth value: true when it is not zero, whatever its type and size (fractions below one
+            // half, values beyond the INTEGER range, values other than -1)
+            return match self.t.choose(5) {
+                0 => Expr::Lit(Lit::Whole(*self.t.pick(&[5i64, 0, 1, 2, 65536, 40000]))),
+                1 => Expr::Lit(Lit::Frac { num: *self.t.pick(&[1i64, 0, 3, 2, 9]), shift: *self.t.pick(&[2u32, 3, 1]), double: self.t.chance(1, 3) }),
+                2 => {
+                    let ty = self.num_ty();
+                    Expr::Load(self.readable_num(ty))
+                }
+                3 => {
+                    let ty = self.num_ty();
+                    let e = self.num_expr(ty, 1);
+                    self.paren_if_binary(e)
+                }
+                _ => Expr::Un(UnOp::Neg, Box::new(Expr::Lit(Lit::Whole(*self.t.pick(&[1i64, 2, 7]))))),
+            };
+        }
         if depth == 0 || self.t.chance(3, 5) {
             let op = *self.t.pick(&BinOp::RELATIONAL);
             if self.cfg.strings && self.t.chance(1, 6) {
@@ -659,15 +677,23 @@ impl<'t, 'c> Gen<'t, 'c> {
             _ => {
                 let (init, _c, cond, inc) = self.bounded_loop_header();
                 let kind = *self.t.pick(&[DoKind::TopWhile, DoKind::TopUntil, DoKind::BottomWhile, DoKind::BottomUntil]);
+                let extra = if self.t.chance(1, 3) { Some(self.cond(0)) } else { None };
                 let cond = match kind {
                     DoKind::TopUntil | DoKind::BottomUntil => {
-                        // UNTIL counter >= n
-                        match cond {
+                        // UNTIL counter >= n [OR extra]: the loop ends on ANY non-zero value of the condition
+                        let c = match cond {
                             Expr::Bin(BinOp::Lt, a, b) => Expr::Bin(BinOp::Ge, a, b),
                             o => o,
+                        };
+                        match extra {
+                            Some(x) => Expr::Bin(BinOp::Or, Box::new(Expr::Paren(Box::new(c))), Box::new(Expr::Paren(Box::new(x)))),
+                            None => c,
                         }
                     }
-                    _ => cond,
+                    _ => match extra {
+                        Some(x) => Expr::Bin(BinOp::And, Box::new(Expr::Paren(Box::new(cond))), Box::new(Expr::Paren(Box::new(x)))),
+                        None => cond,
+                    },
                 };
                 self.depth_in_loops += 1;
                 let mut body = self.block(depth + 1, 3);
